@@ -230,6 +230,7 @@ class Ctx(object):
         ev.consts = self.consts
         ev.new_const = self.new_const
         ev.obs = self.obs_fields()
+        ev.obs_names = self.obs_field_names()
         ev.error_has_source = self.error_has_source
         return ev
 
@@ -260,6 +261,23 @@ class Ctx(object):
             if k in ('AddrOf', 'Unary', 'Paren', 'DropTemps') and role == 'write' and n.get('e') is not None:
                 visit(n['e'], fnp, fn, in_log, lhs_keys, 'write', in_fmt)
                 return
+            if k in ('Call', 'MethodCall'):
+                # `helper(&mut self.stats.x, ..)` where the helper only writes through that parameter is a write of the field
+                cp = S.norm_path(H.callee_path(n) or '')
+                tgt = self.fns.get(cp)
+                args = H.call_args(n)
+                handled = set()
+                if tgt is not None and 'hir' in tgt and len(tgt.get('params', [])) == len(args):
+                    for i_, a_ in enumerate(args):
+                        if a_.get('k') == 'AddrOf' and a_.get('mut') and H.peel(a_['e']).get('k') == 'Field' and write_only_param(tgt, i_):
+                            visit(a_['e'], fnp, fn, in_log, lhs_keys, 'write', in_fmt)
+                            handled.add(i_)
+                for i_, a_ in enumerate(args):
+                    if i_ not in handled:
+                        visit(a_, fnp, fn, in_log, lhs_keys, 'read', in_fmt)
+                if k == 'Call':
+                    visit(n['f'], fnp, fn, in_log, lhs_keys, 'read', in_fmt)
+                return
             if k == 'Field':
                 key = (adt_of(n['e']), n['name'])
                 if role == 'write':
@@ -281,6 +299,40 @@ class Ctx(object):
                 return
             for _, c in H.children(n):
                 visit(c, fnp, fn, in_log, lhs_keys, 'read', in_fmt)
+
+        _wop = {}
+
+        def write_only_param(tgt, i_):
+            key = (id(tgt), i_)
+            if key in _wop:
+                return _wop[key]
+            prm = tgt['params'][i_]
+            ok = prm.get('k') == 'Bind' and (prm.get('ty') or '').startswith('&mut ')
+            if ok:
+                pid = prm['id']
+
+                def scan(n, role, lhs_self):
+                    nonlocal ok
+                    if not isinstance(n, dict) or not ok:
+                        return
+                    k2 = n.get('k')
+                    if k2 == 'MacroCall' and n.get('name') in H.LOG_MACROS:
+                        return
+                    if k2 in ('Assign', 'AssignOp'):
+                        tgt_is_p = H.peel(n['l']).get('k') == 'Local' and H.peel(n['l'])['id'] == pid or \
+                            (n['l'].get('k') == 'Unary' and H.peel(n['l'].get('e', {})).get('k') == 'Local' and H.peel(n['l']['e'])['id'] == pid)
+                        scan(n['l'], 'write', False)
+                        scan(n['r'], 'read', tgt_is_p)
+                        return
+                    if k2 == 'Local' and n['id'] == pid:
+                        if role != 'write' and not lhs_self:
+                            ok = False
+                        return
+                    for _, c in H.children(n):
+                        scan(c, role, lhs_self)
+                scan(tgt['hir'], 'read', False)
+            _wop[key] = ok
+            return ok
 
         def place_keys(l):
             out = []
@@ -370,6 +422,17 @@ class Ctx(object):
             except (IOError, ValueError):
                 self._vocab_fields = {}
         return set(n for n, _, _ in self._vocab_fields.get(adt, []))
+
+    def obs_field_names(self):
+        """names of observation-only fields that no other struct field of the crate shares (usable on terms, which carry no types)"""
+        obs = self.obs_fields()
+        names = set(n for _, n in obs)
+        for ap, a in self.adts.items():
+            for v in a.get('variants') or []:
+                for f in v['fields']:
+                    if f['name'] in names and (ap, f['name']) not in obs:
+                        names.discard(f['name'])
+        return names
 
     def new_const(self, path):
         if getattr(self, '_vocab_consts', None) is None:
@@ -513,6 +576,21 @@ def apply_field_aliases(facts):
     walk(facts.get('consts', []))
     meta['field_aliases'] = {'%s.%s' % k: v for k, v in ren.items()}
     return meta['field_aliases']
+
+
+def run_rules(mod, ctx):
+    """Run a property's rule module; whatever escapes a rule (an anchor that is gone, a reader that gives up) becomes a
+    fail-closed instance of the property instead of a crash of the check."""
+    try:
+        mod.run(ctx)
+    except Exception as e:  # noqa: BLE001
+        rid = 'R%s.0' % ctx.prop[1:]
+        rr = RuleRun(ctx, rid, 'the rule module ran to completion', 0)
+        why = '%s: %s' % (type(e).__name__, e)
+        if not isinstance(e, (MissingAnchor, Unrecognised)):
+            why += ' | ' + ''.join(traceback.format_tb(e.__traceback__)[-2:]).replace('\n', ' ')
+        rr.insts.append(Inst(rid, rr._key('fail-closed'), False, None, why=why, kind='fail-closed'))
+        ctx.rules.append(rr)
 
 
 def load_known():
